@@ -2,7 +2,7 @@
 From Coq Require Import ZArith List Bool Permutation.
 From Knut Require Import Model.Str Model.Dec Model.Account Model.Ledger Model.Journal Model.Check Model.Cli
      Model.CheckWrite Model.ToModel Spec.WellformedSpec Spec.CheckWriteSpec
-     Proofs.CheckMain Proofs.OrderCmd.
+     Proofs.CheckMain Proofs.OrderCmd Proofs.PrintSem Proofs.PrintLex Proofs.PrintLexInput.
 Import ListNotations.
 Open Scope Z_scope.
 
@@ -83,3 +83,22 @@ Lemma write_example_rejected :
   check_cmd_fixed x_bad = CErr k_nonzero (acc_name w_assets_b) /\
   check_write_cmd x_bad = CErr k_nonzero (acc_name w_assets_b).
 Proof. split; vm_compute; reflexivity. Qed.
+
+(* the example journal is what the parser delivers (C09's hypothesis, for C04_write_text_accepted) *)
+Lemma x_sds_input_lex : input_lex x_sds.
+Proof.
+  unfold input_lex, x_sds, w_assets_a, w_assets_b, w_income_i, w_chf, x_usd, s_Assets, s_Income.
+  repeat (apply Forall_cons); try apply Forall_nil;
+    cbn [sdir_lex st_date st_desc st_bookings st_targets st_accrual].
+  - split; [date_tac|acc0_tac].
+  - split; [date_tac|acc0_tac].
+  - split; [date_tac|acc0_tac].
+  - split; [date_tac|]. split; [ascii_cls|]. split; [discriminate|].
+    split; [forall_tac booking_tac|]. split; exact I.
+  - split; [date_tac|]. split; seg_tac.
+  - split; [date_tac|]. split; [ascii_cls|]. split; [discriminate|].
+    split; [forall_tac booking_tac|]. split; exact I.
+  - split; [date_tac|]. split; [ascii_cls|]. split; [discriminate|].
+    split; [forall_tac booking_tac|]. split; exact I.
+  - split; [date_tac|acc0_tac].
+Qed.
